@@ -172,7 +172,7 @@ class Drv(object):
         return self.observe(e)
 
 
-KEEP = ('op', 'x', 'y', 'arr', 'sv', 'ok', 'kind', 'area', 'sweep')
+KEEP = ('op', 'x', 'y', 'arr', 'arr2', 'sv', 'ok', 'kind', 'area', 'sweep')
 
 
 def validate(ctx, d, what):
@@ -386,6 +386,14 @@ class Gen(object):
             return d.do({'op': 'dim', 'arr': n}, 'DIM %s(%s)' % (n, ','.join(map(str, dims))), ok_)
         if r < 0.67 and d.arrays:
             n = rng.choice(list(d.arrays))
+            if len(d.arrays) >= 3 and rng.random() < 0.5:
+                # one ERASE naming two arrays (the later arrays must move down by both sizes)
+                n2 = rng.choice([x for x in d.arrays if x != n])
+
+                def ok2_():
+                    del d.arrays[n]
+                    del d.arrays[n2]
+                return d.do({'op': 'erase', 'arr': n, 'arr2': n2}, 'ERASE %s,%s' % (n, n2), ok2_)
 
             def ok_():
                 del d.arrays[n]
